@@ -1,783 +1,10 @@
 // DOM interpreter + profiles C02, C06, C12, C13, C18, C19 (DESIGN §3).
 // One interpreter executes plans (histories of DOM operations on document slots of three
 // allocator flavours) under two memory environments and judges them against the reference model.
-#include <memory>
-#include <set>
-
-#include "domlib.h"
-
-namespace sim {
-int g_tight_growth = 0;
-uint64_t g_tight_hits = 0;
-}
-extern "C" int sonic_verif_tight_growth() {
-  if (sim::g_tight_growth) sim::g_tight_hits++;
-  return sim::g_tight_growth;
-}
+#include "dom_exec.h"
 
 namespace {
-using namespace sim;
-using namespace sonic_json;
-using model::JVal;
-
-using PoolA = MemoryPoolAllocator<SimBase>;
-using NPool = DNode<PoolA>;
-using NSimple = DNode<SimpleAllocator>;
-using NSim = DNode<SimAlloc>;
-using DPool = GenericDocument<NPool>;
-using DSimple = GenericDocument<NSimple>;
-using DSim = GenericDocument<NSim>;
-
-template <class D> struct NodeOf;
-template <class N> struct NodeOf<GenericDocument<N>> { using type = N; };
-
-enum { FL_POOL = 0, FL_SIMPLE = 1, FL_SIM = 2 };
-constexpr int NSLOT = 6;
-constexpr int NWB = 3;
-
-enum Chk : uint32_t {
-  CHK_WALK = 1, CHK_LOOKUP = 2, CHK_LEDGER = 4, CHK_ENVDEP = 8, CHK_PARSEVAL = 16, CHK_SER = 32,
-  CHK_EQ = 64, CHK_SCHEMA = 128, CHK_PARSEFAIL = 256
-};
-// attached faults
-enum Fault : int64_t { FT_NONE = 0, FT_STRBUF_FAIL = 1, FT_NODESTACK_FAIL = 2, FT_STRCOPY_FAIL = 3 };
-
-struct Slot {
-  int flavour = 0;
-  void* doc = nullptr;
-  JVal m;
-  bool may_map = false;        // after a resync some object may carry a lookup map
-  uint32_t schema_live = 0;    // ledger id of the live ParseSchema text buffer
-  bool own_alloc = false;
-};
-
-struct RunResult {
-  std::vector<uint64_t> op_hashes;
-  std::vector<std::string> op_text;
-  std::vector<std::string> known;
-  uint64_t executed = 0, skipped = 0;
-  uint64_t outcome_vec = 0;
-};
-
-struct DomExec {
-  const Plan& plan;
-  int env_id;
-  RunResult& rr;
-  uint32_t chk;
-  Slot slots[NSLOT];
-  std::vector<std::unique_ptr<PoolA>> pools;
-  WriteBuffer* wb[NWB] = {nullptr, nullptr, nullptr};
-  std::vector<char*> keep;
-  std::set<uint32_t> d5_expected;
-  std::string ob;      // observation text of the current op
-  int cur_op = -1;
-  std::string cur_kind;
-  uint64_t seed;
-
-  DomExec(const Plan& p, int env, RunResult& r) : plan(p), env_id(env), rr(r) {
-    chk = (uint32_t)p.K("chk", CHK_WALK | CHK_LOOKUP | CHK_LEDGER | CHK_ENVDEP);
-    seed = (uint64_t)p.K("envseed", 1);
-  }
-
-  template <class F> void with_doc(Slot& s, F&& f) {
-    switch (s.flavour) {
-      case FL_POOL: f(*(DPool*)s.doc); break;
-      case FL_SIMPLE: f(*(DSimple*)s.doc); break;
-      default: f(*(DSim*)s.doc); break;
-    }
-  }
-  std::string site(const char* what) { return cur_kind + ":" + what; }
-
-  size_t pool_chunk_cap() {
-    static const size_t capsA[] = {65536, 4096, 1024, 256};
-    static const size_t capsB[] = {512, 65536, 2048, 8192};
-    uint64_t h = mix64(seed ^ 0xC4A9);
-    return env_id == 0 ? capsA[h % 4] : capsB[(h >> 8) % 4];
-  }
-  void new_doc(Slot& s, bool own) {
-    s.own_alloc = own;
-    switch (s.flavour) {
-      case FL_POOL:
-        if (own) s.doc = new DPool();
-        else { pools.emplace_back(new PoolA(pool_chunk_cap())); s.doc = new DPool(pools.back().get()); }
-        break;
-      case FL_SIMPLE: s.doc = new DSimple(); break;
-      default: s.doc = new DSim(); break;
-    }
-    s.m = JVal::null(); s.may_map = false; s.schema_live = 0;
-  }
-  void del_doc(Slot& s) {
-    switch (s.flavour) {
-      case FL_POOL: delete (DPool*)s.doc; break;
-      case FL_SIMPLE: delete (DSimple*)s.doc; break;
-      default: delete (DSim*)s.doc; break;
-    }
-    s.doc = nullptr; s.schema_live = 0;
-  }
-
-  // ---- node addressing (paths interpreted modulo what exists)
-  template <class N> struct NRef { N* n; JVal* m; std::vector<int> idx; };
-  template <class N> NRef<N> resolve(N& root, JVal& m, const std::string& path) {
-    NRef<N> r{&root, &m, {}};
-    for (unsigned char b : path) {
-      if (r.m->k == JVal::Arr && !r.m->a.empty()) {
-        if (!r.n->IsArray() || r.n->Size() != r.m->a.size()) violate("model", site("resolve"), "array size differs from model");
-        size_t i = b % r.m->a.size();
-        r.n = &(*r.n)[i]; r.m = &r.m->a[i]; r.idx.push_back((int)i);
-      } else if (r.m->k == JVal::Obj && !r.m->o.empty()) {
-        if (!r.n->IsObject() || r.n->Size() != r.m->o.size()) violate("model", site("resolve"), "object size differs from model");
-        size_t i = b % r.m->o.size();
-        r.n = &((r.n->MemberBegin() + i)->value); r.m = &r.m->o[i].second; r.idx.push_back((int)i);
-      } else break;
-    }
-    return r;
-  }
-  // ops that need an object / array: if the modulo path lands elsewhere, pick (deterministically from the
-  // path bytes) among the nodes of the wanted kind that exist in this document
-  static void collect_kind(const JVal& m, int want, std::vector<int>& cur, std::vector<std::vector<int>>& out) {
-    if (out.size() >= 48) return;
-    if ((want == 0 && m.k == JVal::Obj) || (want == 1 && m.k == JVal::Arr) || (want == 2 && m.is_container())) out.push_back(cur);
-    if (m.k == JVal::Arr) for (size_t i = 0; i < m.a.size(); i++) { cur.push_back((int)i); collect_kind(m.a[i], want, cur, out); cur.pop_back(); }
-    if (m.k == JVal::Obj) for (size_t i = 0; i < m.o.size(); i++) { cur.push_back((int)i); collect_kind(m.o[i].second, want, cur, out); cur.pop_back(); }
-  }
-  template <class N> NRef<N> resolve_kind(N& root, JVal& m, const std::string& path, int want) {
-    NRef<N> r = resolve(root, m, path);
-    bool ok = (want == 0 && r.m->k == JVal::Obj) || (want == 1 && r.m->k == JVal::Arr) || (want == 2 && r.m->is_container());
-    if (ok) return r;
-    std::vector<std::vector<int>> cands; std::vector<int> cur;
-    collect_kind(m, want, cur, cands);
-    if (cands.empty()) return r;
-    uint64_t h = fnv1a(path.data(), path.size());
-    std::string p2;
-    for (int i : cands[h % cands.size()]) p2 += (char)i;   // indices < 256 by construction of the generators
-    return resolve(root, m, p2);
-  }
-  static int wanted_kind(const std::string& k) {
-    if (k == "AddMember" || k == "AddMemberN" || k == "RemoveMember" || k == "EraseMember" || k == "MemberReserve" || k == "CreateMap" || k == "DestroyMap" || k == "Lookup") return 0;
-    if (k == "PushBack" || k == "PushBackN" || k == "PopBack" || k == "Erase" || k == "Reserve") return 1;
-    if (k == "Clear") return 2;
-    return -1;
-  }
-  static bool is_prefix(const std::vector<int>& a, const std::vector<int>& b) {  // a prefix of b (or equal)
-    if (a.size() > b.size()) return false;
-    for (size_t i = 0; i < a.size(); i++) if (a[i] != b[i]) return false;
-    return true;
-  }
-
-  // ---- checks
-  template <class D> void check_doc(D& doc, Slot& s, const char* when) {
-    using N = typename NodeOf<D>::type;
-    std::string got = walk_str(static_cast<const N&>(doc));
-    std::string want = model::canon(s.m);
-    if (got != want)
-      violate("model", site(when), "document differs from model: got " + model::printable(got, 300) + " want " + model::printable(want, 300));
-  }
-  void check_all_docs(const char* when) {
-    if (!(chk & CHK_WALK)) return;
-    for (auto& s : slots) if (s.doc) with_doc(s, [&](auto& d) { check_doc(d, s, when); });
-  }
-  template <class N> void check_lookups(N& n, JVal& m, bool may_map) {
-    if (m.k != JVal::Obj || !n.IsObject()) return;
-    std::vector<std::string> keys;
-    size_t stride = m.o.size() > 12 ? m.o.size() / 12 + 1 : 1, off = m.o.size() > 12 ? (size_t)(cur_op % (int)stride) : 0;
-    for (size_t qi = off; qi < m.o.size(); qi += stride) { auto& kv = m.o[qi]; bool dup = false; for (auto& k : keys) if (k == kv.first) dup = true; if (!dup && keys.size() < 14) keys.push_back(kv.first); }
-    if (!m.o.empty() && m.find(m.o.back().first) >= 0) { bool dup = false; for (auto& k : keys) if (k == m.o.back().first) dup = true; if (!dup) keys.push_back(m.o.back().first); }
-    size_t present = keys.size();
-    keys.push_back("zz"); keys.push_back("");
-    if (present) { std::string k = keys[0]; if (k.empty()) k = "\x01"; else k[k.size() - 1] ^= 1; keys.push_back(k); k = keys[0] + "x"; keys.push_back(k); }
-    keys.push_back(std::string(40, 'k'));
-    const N& cn = n;
-    for (auto& k : keys) {
-      int want = m.find(k);
-      bool relaxed = (m.has_map || may_map) && m.count_key(k) > 1;
-      CBuf kb(k, simmem::PL_AUTO);
-      StringView kv(kb.data, k.size());
-      auto it1 = n.FindMember(kv);
-      auto it2 = n.FindMember(kb.data, k.size());
-      auto it3 = cn.FindMember(kv);
-      bool has = cn.HasMember(kv);
-      const N& sub = cn[kv];
-      long i1 = it1 - n.MemberBegin(), i2 = it2 - n.MemberBegin(), i3 = it3 - cn.MemberBegin(), e = (long)n.Size();
-      auto bad = [&](const char* what) {
-        violate("model", site("lookup"), std::string(what) + " for key '" + model::printable(k) + "' (model index " + std::to_string(want) + ", FindMember(view) " + std::to_string(i1) + ", FindMember(ptr,len) " + std::to_string(i2) + ", size " + std::to_string(e) + ")");
-      };
-      if (want < 0) {
-        if (i1 != e || i2 != e || i3 != e) bad("absent key reported found");
-        if (has) bad("HasMember true for absent key");
-        if (!sub.IsNull()) bad("operator[] of absent key is not null");
-      } else {
-        if (i1 < 0 || i1 >= e || i2 < 0 || i2 >= e || i3 < 0 || i3 >= e) bad("present key not found");
-        if (!has) bad("HasMember false for present key");
-        if (relaxed) {
-          if (it1->name.GetStringView() != StringView(k.data(), k.size()) || it2->name.GetStringView() != StringView(k.data(), k.size())) bad("lookup returned a member with another key");
-        } else {
-          if (i1 != want || i2 != want || i3 != want) bad("lookup returned a different member than the first with that key");
-          if (&sub != &it1->value) bad("operator[] is not the found member's value");
-        }
-      }
-      kb.release();
-      ob += 'L'; ob += std::to_string(want < 0 ? -1 : (relaxed ? -2 : want));
-    }
-  }
-
-  // ---- D5 bookkeeping (known finding C13: previous ParseSchema text buffers are never freed)
-  void note_schema_buffer(Slot& s, size_t textlen) {
-    if (s.flavour == FL_POOL) return;
-    uint8_t prov = s.flavour == FL_SIM ? simmem::SIMALLOC : simmem::LIBC;
-    for (auto& b : simmem::op_allocs()) {
-      if (b.prov == prov && !b.via_realloc && b.size == textlen + 64) {
-        if (s.schema_live) d5_expected.insert(s.schema_live);
-        s.schema_live = b.id;
-        return;
-      }
-    }
-  }
-
-  // ---- op execution
-  void run() {
-    for (int i = 0; i < NSLOT; i++) { slots[i].flavour = i % 3; }
-    int64_t flmask = plan.K("flavours", 7);
-    int64_t ownmask = plan.K("own_alloc", 0);
-    simmem::set_op(-1, -1);
-    for (int i = 0; i < NSLOT; i++)
-      if (flmask & (1 << slots[i].flavour)) new_doc(slots[i], (ownmask >> i) & 1);
-    for (int i = 0; i < NWB; i++) wb[i] = new WriteBuffer();
-    g_tight_growth = (int)plan.K("tight_growth", 0);
-
-    for (size_t i = 0; i < plan.ops.size(); i++) {
-      const Op& op = plan.ops[i];
-      cur_op = (int)i; cur_kind = op.kind; ob.clear();
-      simmem::set_op((int)i, (int)(fnv1a(op.kind.data(), op.kind.size()) & 0x7fff));
-      bool done = exec_op(op);
-      drain_pending(site("ledger"));
-      if (done) { rr.executed++; check_all_docs("after"); drain_pending(site("ledger")); }
-      else { rr.skipped++; ob = "skip"; }
-      rr.outcome_vec = mix64(rr.outcome_vec ^ fnv1a(ob.data(), ob.size() < 16 ? ob.size() : 16));
-      rr.op_hashes.push_back(fnv1a(ob.data(), ob.size()));
-      if (g_verbose) rr.op_text.push_back(op.kind + " -> " + model::printable(ob, 400));
-    }
-    teardown();
-  }
-
-  void teardown() {
-    cur_op = (int)plan.ops.size(); cur_kind = "Teardown";
-    simmem::set_op(cur_op, 0x7ffe);
-    g_tight_growth = 0;
-    for (int i = NSLOT - 1; i >= 0; i--) if (slots[i].doc) del_doc(slots[i]);
-    pools.clear();
-    for (int i = 0; i < NWB; i++) { delete wb[i]; wb[i] = nullptr; }
-    drain_pending(site("ledger"));
-    for (char* p : keep) simmem::caller_free(p);
-    keep.clear();
-    if (!(chk & CHK_LEDGER)) return;
-    std::vector<simmem::Block> live, all;
-    for (int prov : {(int)simmem::LIBC, (int)simmem::SIMALLOC, (int)simmem::SIMBASE}) {
-      simmem::live_blocks((simmem::Provider)prov, live);
-      all.insert(all.end(), live.begin(), live.end());
-    }
-    if (all.empty()) return;
-    bool only_d5 = true;
-    for (auto& b : all) if (!d5_expected.count(b.id)) only_d5 = false;
-    if (only_d5) {
-      if (known_listed("C13:leak:schema_strbuf_prev")) { rr.known.push_back("C13:leak:schema_strbuf_prev"); return; }
-      violate("ledger", "Teardown:leak:schema_strbuf_prev", std::to_string(all.size()) + " ParseSchema text buffer(s) of earlier ParseSchema calls on the same document still allocated after every owner was destroyed");
-    }
-    const simmem::Block* w = nullptr;
-    for (auto& b : all) if (!d5_expected.count(b.id)) { w = &b; break; }
-    std::string opk = w->op >= 0 && (size_t)w->op < plan.ops.size() ? plan.ops[(size_t)w->op].kind : "?";
-    violate("ledger", "Teardown:leak:" + opk, std::to_string(all.size()) + " block(s) still allocated after every owner was destroyed; first: size " + std::to_string(w->size) + " provider " + std::to_string((int)w->prov) + " allocated in op " + std::to_string(w->op) + " (" + opk + ")");
-  }
-
-  bool exec_op(const Op& op) {
-    const std::string& k = op.kind;
-    int si = (int)((uint64_t)op.A(0) % NSLOT);
-    // slot selection honours the flavour mask: advance to the next existing slot
-    for (int t = 0; t < NSLOT && !slots[si].doc; t++) si = (si + 1) % NSLOT;
-    Slot& s = slots[si];
-    if (!s.doc) return false;
-    bool done = false;
-    if (k == "DocMove" || k == "DocMoveCtor" || k == "DocSwap") return doc_level(op, s);
-    if (k == "DocReset") { del_doc(s); new_doc(s, op.A(1) & 1); ob = "reset"; return true; }
-    if (k == "WbNew") { int w = (int)((uint64_t)op.A(0) % NWB); delete wb[w]; wb[w] = op.A(1) < 0 ? new WriteBuffer() : new WriteBuffer((size_t)op.A(1)); ob = "wb"; return true; }
-    if (k == "WbMove") { int d = (int)((uint64_t)op.A(0) % NWB), sidx = (int)((uint64_t)op.A(1) % NWB); if (d == sidx) return false; *wb[d] = std::move(*wb[sidx]); ob = "wbmove"; return true; }
-    if (k == "CopyFrom" || k == "Eq") {
-      int oi = (int)((uint64_t)op.A(1) % NSLOT);
-      for (int t = 0; t < NSLOT && !slots[oi].doc; t++) oi = (oi + 1) % NSLOT;
-      Slot& o = slots[oi];
-      with_doc(s, [&](auto& d) { with_doc(o, [&](auto& e) { done = (k == "CopyFrom") ? op_copyfrom(op, s, d, o, e) : op_eq(op, s, d, o, e); }); });
-      return done;
-    }
-    with_doc(s, [&](auto& d) { done = node_op(op, s, d); });
-    return done;
-  }
-
-  bool doc_level(const Op& op, Slot& s) {
-    int oi = (int)((uint64_t)op.A(1) % NSLOT);
-    // partner must have the same flavour and be another slot
-    int found = -1;
-    for (int t = 0; t < NSLOT; t++) { int c = (oi + t) % NSLOT; if (&slots[c] != &s && slots[c].doc && slots[c].flavour == s.flavour) { found = c; break; } }
-    if (found < 0) return false;
-    Slot& o = slots[found];
-    with_doc(s, [&](auto& d) {
-      using D = std::remove_reference_t<decltype(d)>;
-      D& e = *(D*)o.doc;
-      if (op.kind == "DocSwap") {
-        d.Swap(e);
-        std::swap(s.m, o.m); std::swap(s.may_map, o.may_map); std::swap(s.schema_live, o.schema_live); std::swap(s.own_alloc, o.own_alloc);
-        ob = "swap";
-      } else if (op.kind == "DocMove") {
-        d = std::move(e);
-        s.m = std::move(o.m); s.may_map = o.may_map; s.schema_live = o.schema_live; s.own_alloc = o.own_alloc;
-        o.schema_live = 0;
-        del_doc(o); new_doc(o, false);
-        ob = "move";
-      } else {
-        del_doc(s);
-        s.doc = new D(std::move(e));
-        s.m = std::move(o.m); s.may_map = o.may_map; s.schema_live = o.schema_live; s.own_alloc = o.own_alloc;
-        o.schema_live = 0;
-        del_doc(o); new_doc(o, false);
-        ob = "movector";
-      }
-    });
-    return true;
-  }
-
-  template <class D, class E> bool op_copyfrom(const Op& op, Slot& s, D& d, Slot& o, E& e) {
-    using N = typename NodeOf<D>::type; using M = typename NodeOf<E>::type;
-    auto dst = resolve(static_cast<N&>(d), s.m, op.S(0));
-    auto src = resolve(static_cast<M&>(e), o.m, op.S(1));
-    if (&s == &o && (is_prefix(dst.idx, src.idx) || is_prefix(src.idx, dst.idx))) return false;  // documented precondition
-    bool copy_str = op.A(2) & 1;
-    JVal mv = *src.m; mv.clear_maps();
-    dst.n->CopyFrom(*src.n, d.GetAllocator(), copy_str);
-    *dst.m = std::move(mv);
-    ob = "copy";
-    probe("copyfrom");
-    if (s.flavour != o.flavour) probe("copyfrom_cross_allocator");
-    return true;
-  }
-
-  template <class D, class E> bool op_eq(const Op& op, Slot& s, D& d, Slot& o, E& e) {
-    using N = typename NodeOf<D>::type; using M = typename NodeOf<E>::type;
-    auto a = resolve(static_cast<N&>(d), s.m, op.S(0));
-    auto b = resolve(static_cast<M&>(e), o.m, op.S(1));
-    const N& na = *a.n; const M& nb = *b.n;
-    bool r1 = (na == nb), r2 = (nb == na), r3 = (na != nb), r4 = (na == na), r5 = (nb == nb);
-    ob = std::string("eq") + (r1 ? '1' : '0');
-    if (!(chk & CHK_EQ)) return true;
-    if (a.m->has_dup_keys_deep() || b.m->has_dup_keys_deep()) return true;  // statement excludes duplicate keys
-    if (!r4 || !r5) violate("model", site("reflexive"), "a node does not compare equal to itself");
-    if (r1 != r2) violate("model", site("symmetric"), "A==B differs from B==A: A=" + model::printable(model::canon(*a.m), 200) + " B=" + model::printable(model::canon(*b.m), 200));
-    if (r3 == r1) violate("model", site("negation"), "A!=B is not the negation of A==B");
-    bool want = model::equal_value(*a.m, *b.m);
-    if (r1 != want)
-      violate("model", site("value_equality"), std::string("operator== returned ") + (r1 ? "true" : "false") + " but JSON value equality is " + (want ? "true" : "false") + ": A=" + model::printable(model::canon(*a.m), 200) + " B=" + model::printable(model::canon(*b.m), 200));
-    probe(want ? "eq_true_pairs" : "eq_false_pairs");
-    if (s.flavour != o.flavour) probe("eq_cross_allocator");
-    return true;
-  }
-
-  template <class D> bool node_op(const Op& op, Slot& s, D& d) {
-    using N = typename NodeOf<D>::type;
-    using A = typename D::Allocator;
-    const std::string& k = op.kind;
-    N& root = static_cast<N&>(d);
-    A& alloc = d.GetAllocator();
-    BuildCtx bc; bc.seed = mix64(seed ^ (uint64_t)cur_op * 31337); bc.keep = &keep; bc.str_mode = (int)plan.K("str_mode", 2);
-
-    // ---------------- document-level parse family
-    if (k == "Parse" || k == "ParseOnDemand" || k == "ParseSchema") {
-      const std::string& text = op.S(1);
-      CBuf tb(text, simmem::PL_AUTO);
-      model::ParseOut ref = model::parse(text);
-      if (k == "Parse") {
-        bool armed = false;
-        if (op.fault == FT_STRBUF_FAIL && s.flavour != FL_POOL) { simmem::arm_fail(s.flavour == FL_SIM ? simmem::SIMALLOC : simmem::LIBC, simmem::FK_MALLOC, 0); armed = true; }
-        if (op.fault == FT_NODESTACK_FAIL) { simmem::arm_fail(simmem::LIBC, simmem::FK_REALLOC_NULL, 0); armed = true; }
-        d.Parse(tb.data, text.size());
-        bool fired = armed && simmem::disarm();
-        tb.release();
-        s.schema_live = 0;
-        ob = "P" + std::to_string((int)d.GetParseError()) + "@" + std::to_string(d.GetErrorOffset());
-        if (fired) {
-          probe("alloc_fail_fired_in_parse");
-          if (d.GetParseError() != kErrorNoMem) violate("contract", site("nomem"), "allocation failure at a handled site did not yield kErrorNoMem (got " + std::to_string((int)d.GetParseError()) + ")");
-          if (!d.IsNull()) violate("contract", site("nomem"), "document not null after kErrorNoMem");
-          s.m = JVal::null(); s.may_map = false;
-          return true;
-        }
-        after_parse(d, s, ref, text.size());
-        return true;
-      }
-      if (k == "ParseOnDemand") {
-        auto ps = pspec_decode(op.S(2));
-        auto path = pspec_resolve(ps, ref.ok ? ref.v : JVal::null());
-        JsonPointer jp = to_json_pointer(path);
-        d.ParseOnDemand(tb.data, text.size(), jp);
-        tb.release();
-        s.schema_live = 0;
-        ob = "O" + std::to_string((int)d.GetParseError());
-        if (d.HasParseError()) {
-          if (!d.IsNull()) violate("contract", site("failed_parse_state"), "document not null after failed ParseOnDemand");
-          s.m = JVal::null();
-        } else {
-          s.m = to_jval(root);
-          if (ref.ok && (chk & CHK_PARSEVAL)) {
-            const JVal* want = model::pointer(ref.v, path);
-            if (!want || !model::equal_struct(*want, s.m)) violate("model", site("value"), "ParseOnDemand value differs from pointer lookup in the reference parse");
-          }
-          probe("parse_on_demand_ok");
-        }
-        s.may_map = false;
-        ob += walk_str(root);
-        return true;
-      }
-      // ParseSchema
-      JVal before = s.m;
-      bool had_map = s.may_map || any_map(s.m);
-      d.ParseSchema(tb.data, text.size());
-      tb.release();
-      note_schema_buffer(s, text.size());
-      ob = "S" + std::to_string((int)d.GetParseError());
-      JVal actual = to_jval(root);
-      if (ref.ok && (chk & CHK_SCHEMA) && !before.has_dup_keys_deep() && !ref.v.has_dup_keys_deep()) {
-        if (d.HasParseError()) violate("model", site("error_on_valid_text"), "ParseSchema reported error " + std::to_string((int)d.GetParseError()) + " for a valid text");
-        std::string why;
-        if (!schema_ok(before, ref.v, actual, why))
-          violate("model", site("merge"), "existing=" + model::printable(model::write(before), 200) + " text=" + model::printable(text, 200) + " result=" + model::printable(model::write(actual), 200) + " expected=" + model::printable(model::write(model::schema_merge(before, ref.v)), 200) + " (" + why + ")");
-        probe("schema_merge_checked");
-        if (before.k == JVal::Obj && !before.o.empty() && ref.v.k == JVal::Obj) probe("schema_update_mode");
-      }
-      s.m = std::move(actual);
-      s.may_map = had_map;
-      ob += model::canon(s.m);
-      return true;
-    }
-
-    int wk = wanted_kind(k);
-    auto t = wk >= 0 ? resolve_kind(root, s.m, op.S(0), wk) : resolve(root, s.m, op.S(0));
-    N& n = *t.n; JVal& m = *t.m;
-
-    if (k == "Build" || k == "Assign") {
-      JVal v = canon_decode(op.S(1));
-      bc.reserve_mode = (int)(op.A(1) % 3);
-      N tmp; build(tmp, v, alloc, bc);
-      n = std::move(tmp);
-      m = std::move(v);
-      ob = "b"; return true;
-    }
-    if (k == "SetNull") { n.SetNull(); m = JVal::null(); ob = "n"; return true; }
-    if (k == "SetBool") { n.SetBool(op.A(1) & 1); m = JVal::boolean(op.A(1) & 1); ob = "b"; return true; }
-    if (k == "SetInt") { n.SetInt64(op.A(1)); m = JVal::sint(op.A(1)); ob = "i"; return true; }
-    if (k == "SetUint") { n.SetUint64((uint64_t)op.A(1)); m = JVal::uint((uint64_t)op.A(1)); ob = "u"; return true; }
-    if (k == "SetDouble") { double dv; uint64_t bits = (uint64_t)op.A(1); memcpy(&dv, &bits, 8); n.SetDouble(dv); m = JVal::real_bits(bits); ob = "d"; return true; }
-    if (k == "SetArray") { n.SetArray(); m = JVal::arr(); ob = "a"; return true; }
-    if (k == "SetObject") { n.SetObject(); m = JVal::obj(); ob = "o"; return true; }
-    if (k == "SetStr") {
-      const std::string& str = op.S(1);
-      bool copy = op.A(1) & 1;
-      if (copy) {
-        CBuf sb(str);
-        bool armed = false;
-        if (op.fault == FT_STRCOPY_FAIL && s.flavour != FL_POOL) { simmem::arm_fail(s.flavour == FL_SIM ? simmem::SIMALLOC : simmem::LIBC, simmem::FK_MALLOC, 0); armed = true; }
-        n.SetString(sb.data, str.size(), alloc);
-        bool fired = armed && simmem::disarm();
-        sb.release();
-        if (fired) { probe("alloc_fail_fired_in_stringcopy"); m = JVal::str(""); ob = "sF"; return true; }
-      } else {
-        n.SetString(bc.konst(str), str.size());
-      }
-      m = JVal::str(str); ob = "s"; return true;
-    }
-    if (k == "AddMember") {
-      if (m.k != JVal::Obj) return false;
-      const std::string& key = op.S(1);
-      JVal v = canon_decode(op.S(2));
-      bool copy = op.A(1) & 1;
-      N tmp; build(tmp, v, alloc, bc);
-      size_t before_sz = n.Size();
-      bool fired = false;
-      typename N::MemberIterator it;
-      if (copy) {
-        CBuf kb(key);
-        bool armed = false;
-        if (op.fault == FT_STRCOPY_FAIL && s.flavour != FL_POOL) {
-          int skip = (n.Size() >= n.Capacity() && n.Capacity() == 0) ? 1 : 0;
-          simmem::arm_fail(s.flavour == FL_SIM ? simmem::SIMALLOC : simmem::LIBC, simmem::FK_MALLOC, skip); armed = true;
-        }
-        it = n.AddMember(StringView(kb.data, key.size()), std::move(tmp), alloc, true);
-        fired = armed && simmem::disarm();
-        kb.release();
-      } else {
-        it = n.AddMember(StringView(bc.konst(key), key.size()), std::move(tmp), alloc, false);
-      }
-      if ((size_t)(it - n.MemberBegin()) != before_sz) violate("model", site("return"), "AddMember did not return the iterator of the appended member");
-      if (fired) probe("alloc_fail_fired_in_stringcopy");
-      m.o.emplace_back(fired ? std::string() : key, std::move(v));
-      if (m.has_map) probe("addmember_with_map");
-      ob = fired ? "AF" : "A";
-      if (chk & CHK_LOOKUP) check_lookups(n, m, s.may_map);
-      return true;
-    }
-    if (k == "RemoveMember") {
-      if (m.k != JVal::Obj) return false;
-      const std::string& key = op.S(1);
-      if ((m.has_map || s.may_map) && m.count_key(key) > 1) return false;  // multimap may pick either duplicate
-      CBuf kb(key);
-      bool r = n.RemoveMember(StringView(kb.data, key.size()));
-      kb.release();
-      int j = m.find(key);
-      if (r != (j >= 0)) violate("model", site("return"), std::string("RemoveMember returned ") + (r ? "true" : "false") + " for a key that is " + (j >= 0 ? "present" : "absent"));
-      if (j >= 0) {
-        size_t last = m.o.size() - 1;
-        if ((size_t)j != last) { m.o[(size_t)j] = std::move(m.o[last]); probe("remove_moves_tail"); if (m.has_map) probe("remove_moves_tail_with_map"); }
-        m.o.pop_back();
-      }
-      ob = r ? "R1" : "R0";
-      if (chk & CHK_LOOKUP) check_lookups(n, m, s.may_map);
-      return true;
-    }
-    if (k == "EraseMember") {
-      if (m.k != JVal::Obj) return false;
-      size_t sz = m.o.size();
-      size_t first = (size_t)((uint64_t)op.A(1) % (sz + 1));
-      size_t last = first + (size_t)((uint64_t)op.A(2) % (sz - first + 1));
-      if (sz == 0 && n.MemberBegin() == nullptr) { /* iterators of an empty object without storage */ }
-      auto it = n.EraseMember(n.MemberBegin() + first, n.MemberBegin() + last);
-      m.o.erase(m.o.begin() + (long)first, m.o.begin() + (long)last);
-      m.has_map = false;
-      long ri = it - n.MemberBegin();
-      if (m.o.empty() ? (it != n.MemberEnd()) : (ri != (long)first)) violate("model", site("return"), "EraseMember returned iterator index " + std::to_string(ri) + ", expected " + std::to_string(first));
-      ob = "E" + std::to_string(first) + "-" + std::to_string(last);
-      if (chk & CHK_LOOKUP) check_lookups(n, m, s.may_map);
-      return true;
-    }
-    if (k == "MemberReserve") {
-      if (m.k != JVal::Obj) return false;
-      size_t want = (size_t)((uint64_t)op.A(1) % 70);
-      n.MemberReserve(want, alloc);
-      if (n.Capacity() < want) violate("model", site("capacity"), "Capacity() below the reserved amount");
-      ob = "mr";
-      if (chk & CHK_LOOKUP) check_lookups(n, m, s.may_map);
-      return true;
-    }
-    if (k == "CreateMap") {
-      if (m.k != JVal::Obj) return false;
-      bool r = n.CreateMap(alloc);
-      if (!r) violate("model", site("return"), "CreateMap returned false");
-      m.has_map = true; ob = "cm";
-      probe("create_map");
-      if (chk & CHK_LOOKUP) check_lookups(n, m, s.may_map);
-      return true;
-    }
-    if (k == "DestroyMap") {
-      if (m.k != JVal::Obj) return false;
-      n.DestroyMap(); m.has_map = false; ob = "dm";
-      if (chk & CHK_LOOKUP) check_lookups(n, m, false);
-      return true;
-    }
-    if (k == "Lookup") {
-      if (m.k != JVal::Obj) return false;
-      check_lookups(n, m, s.may_map);
-      return true;
-    }
-    if (k == "PushBack") {
-      if (m.k != JVal::Arr) return false;
-      JVal v = canon_decode(op.S(1));
-      N tmp; build(tmp, v, alloc, bc);
-      N& r = n.PushBack(std::move(tmp), alloc);
-      if (&r != &n) violate("model", site("return"), "PushBack did not return *this");
-      m.a.push_back(std::move(v)); ob = "pb"; return true;
-    }
-    if (k == "PushBackN") {   // bulk growth: capacity 16 -> 24 -> 36 -> 54
-      if (m.k != JVal::Arr) return false;
-      size_t cnt = (size_t)((uint64_t)op.A(1) % 48) + 1;
-      for (size_t i = 0; i < cnt; i++) {
-        JVal v = (i % 5 == 4) ? JVal::str("e" + std::to_string(i)) : JVal::uint(i * 3 + 1);
-        N tmp; build(tmp, v, alloc, bc);
-        n.PushBack(std::move(tmp), alloc);
-        m.a.push_back(std::move(v));
-      }
-      probe("bulk_pushback"); ob = "pbn"; return true;
-    }
-    if (k == "AddMemberN") {
-      if (m.k != JVal::Obj) return false;
-      size_t cnt = (size_t)((uint64_t)op.A(1) % 48) + 1;
-      for (size_t i = 0; i < cnt; i++) {
-        std::string key = "n" + std::to_string(cur_op) + "_" + std::to_string(i);
-        JVal v = (i % 4 == 3) ? JVal::str("v" + std::to_string(i)) : JVal::sint((int64_t)i - 7);
-        N tmp; build(tmp, v, alloc, bc);
-        if (op.A(2) & 1) { CBuf kb(key); n.AddMember(StringView(kb.data, key.size()), std::move(tmp), alloc, true); kb.release(); }
-        else n.AddMember(StringView(bc.konst(key), key.size()), std::move(tmp), alloc, false);
-        m.o.emplace_back(key, std::move(v));
-      }
-      probe("bulk_addmember"); if (m.has_map) probe("bulk_addmember_with_map"); ob = "amn";
-      if (chk & CHK_LOOKUP) check_lookups(n, m, s.may_map);
-      return true;
-    }
-    if (k == "PopBack") {
-      if (m.k != JVal::Arr || m.a.empty()) return false;
-      n.PopBack(); m.a.pop_back(); ob = "pp"; return true;
-    }
-    if (k == "Erase") {
-      if (m.k != JVal::Arr) return false;
-      size_t sz = m.a.size();
-      if (sz == 0) return false;
-      size_t first = (size_t)((uint64_t)op.A(1) % (sz + 1));
-      size_t last = first + (size_t)((uint64_t)op.A(2) % (sz - first + 1));
-      if (op.A(3) & 1) {
-        if (first >= sz) return false;
-        auto it = n.Erase(n.Begin() + first);
-        last = first + 1;
-        if (it - n.Begin() != (long)first) violate("model", site("return"), "Erase(pos) returned a wrong iterator");
-      } else {
-        auto it = n.Erase(first, last);
-        if (it - n.Begin() != (long)first) violate("model", site("return"), "Erase(first,last) returned a wrong iterator");
-      }
-      m.a.erase(m.a.begin() + (long)first, m.a.begin() + (long)last);
-      ob = "e" + std::to_string(first) + "-" + std::to_string(last); return true;
-    }
-    if (k == "Reserve") {
-      if (m.k != JVal::Arr) return false;
-      size_t want = (size_t)((uint64_t)op.A(1) % 70);
-      n.Reserve(want, alloc);
-      if (n.Capacity() < want) violate("model", site("capacity"), "Capacity() below the reserved amount");
-      ob = "r"; return true;
-    }
-    if (k == "Clear") {
-      if (!m.is_container()) return false;
-      n.Clear(); m.a.clear(); m.o.clear(); m.has_map = false;
-      if (n.Size() != 0 || !n.Empty()) violate("model", site("size"), "container not empty after Clear");
-      ob = "c"; return true;
-    }
-    if (k == "MoveNode" || k == "SwapNode") {
-      auto o2 = resolve(root, s.m, op.S(1));
-      if (o2.n == &n) return false;
-      if (k == "MoveNode") {
-        // dst = std::move(src): src may be inside dst, dst must not be inside src
-        if (is_prefix(o2.idx, t.idx)) return false;
-        n = std::move(*o2.n);
-        JVal tmpv = std::move(*o2.m);
-        *o2.m = JVal::null();
-        // careful: o2.m may live inside m; take value first (done), then overwrite
-        m = std::move(tmpv);
-        if (is_prefix(t.idx, o2.idx)) probe("move_from_own_subnode");
-        ob = "mv"; return true;
-      }
-      if (is_prefix(o2.idx, t.idx) || is_prefix(t.idx, o2.idx)) return false;
-      n.Swap(*o2.n);
-      std::swap(m, *o2.m);
-      ob = "sw"; return true;
-    }
-    if (k == "AtPointer") {
-      auto ps = pspec_decode(op.S(1));
-      auto path = pspec_resolve(ps, m);
-      JsonPointer jp = to_json_pointer(path);
-      const N& cn = n;
-      N* r = n.AtPointer(jp);
-      const N* cr = cn.AtPointer(jp);
-      const JVal* want = model::pointer(m, path);
-      if ((r != nullptr) != (want != nullptr) || r != cr)
-        violate("model", site("resolve"), std::string("AtPointer ") + (r ? "resolved" : "did not resolve") + " but the model " + (want ? "does" : "does not"));
-      if (r) { std::string g = walk_str(*r); if (g != model::canon(*want)) violate("model", site("value"), "AtPointer returned another node than the model's"); probe("atpointer_hit"); }
-      ob = r ? "ap1" : "ap0"; return true;
-    }
-    if (k == "Serialize" || k == "Dump") {
-      std::string bytes; SonicError err;
-      bool nonfinite = m.nonfinite_deep();
-      if (k == "Serialize") {
-        WriteBuffer& w = *wb[(size_t)((uint64_t)op.A(1) % NWB)];
-        err = n.Serialize(w);
-        if (err == kErrorNone) {
-          size_t sz = w.Size();
-          const char* cs = w.ToString();
-          if (strlen(cs) != sz && memchr(cs, 0, sz) == nullptr) violate("model", site("size"), "WriteBuffer::Size() != strlen(ToString())");
-          bytes.assign(cs, sz);
-        }
-      } else {
-        bytes = n.Dump(); err = bytes.empty() ? kSerErrorInfinity : kErrorNone;
-        if (bytes.empty() && !nonfinite) violate("model", site("error"), "Dump returned the empty string for a finite document");
-      }
-      ob = "Z" + std::to_string((int)err) + bytes;
-      if (!(chk & CHK_SER)) return true;
-      if (nonfinite) {
-        if (k == "Serialize" && err != kSerErrorInfinity) violate("model", site("nonfinite"), "document with a non-finite double: Serialize returned " + std::to_string((int)err) + " instead of the infinity error");
-        if (k == "Dump" && !bytes.empty()) violate("model", site("nonfinite"), "Dump of a document with a non-finite double is not empty");
-        probe("serialize_nonfinite");
-        return true;
-      }
-      if (err != kErrorNone) violate("model", site("error"), "Serialize returned error " + std::to_string((int)err) + " for a finite document");
-      check_serialized(bytes, n, m);
-      return true;
-    }
-    return false;
-  }
-
-  static bool any_map(const JVal& v) {
-    if (v.has_map) return true;
-    for (auto& x : v.a) if (any_map(x)) return true;
-    for (auto& kv : v.o) if (any_map(kv.second)) return true;
-    return false;
-  }
-
-  // relation form of the C19 statement; the corner "existing non-empty object, text empty object"
-  // is accepted both ways (statement is ambiguous there)
-  static bool schema_ok(const JVal& e, const JVal& t, const JVal& r, std::string& why) {
-    if (e.k == JVal::Obj && !e.o.empty() && t.k == JVal::Obj) {
-      if (t.o.empty()) { if (model::equal_struct(r, e) || model::equal_struct(r, t)) return true; why = "empty-object text over non-empty object"; return false; }
-      if (r.k != JVal::Obj || r.o.size() != e.o.size()) { why = "key set of a non-empty object level changed"; return false; }
-      for (size_t i = 0; i < e.o.size(); i++) {
-        if (r.o[i].first != e.o[i].first) { why = "key set/order of a non-empty object level changed"; return false; }
-        int j = t.find(e.o[i].first);
-        if (j < 0) { if (!model::equal_struct(r.o[i].second, e.o[i].second)) { why = "declared key omitted by the text was changed: " + model::printable(e.o[i].first); return false; } }
-        else if (!schema_ok(e.o[i].second, t.o[(size_t)j].second, r.o[i].second, why)) { if (why.size() < 200) why = "at key '" + model::printable(e.o[i].first) + "': " + why; return false; }
-      }
-      return true;
-    }
-    if (!model::equal_struct(r, t)) { why = "value not replaced by the text's value"; return false; }
-    return true;
-  }
-
-  template <class D> void after_parse(D& d, Slot& s, const model::ParseOut& ref, size_t len) {
-    using N = typename NodeOf<D>::type;
-    N& root = static_cast<N&>(d);
-    s.may_map = false;
-    if (d.HasParseError()) {
-      if (!d.IsNull()) violate("contract", site("failed_parse_state"), "document not null after a failed Parse");
-      if (d.GetParseError() == kErrorNone) violate("contract", site("failed_parse_state"), "HasParseError with code none");
-      s.m = JVal::null();
-      probe("parse_failed");
-      if ((chk & CHK_PARSEFAIL) && ref.ok) violate("model", site("reject_valid"), "Parse rejected a text the plan rendered from a model value (code " + std::to_string((int)d.GetParseError()) + " at " + std::to_string(d.GetErrorOffset()) + ")");
-      return;
-    }
-    (void)len;
-    s.m = to_jval(root);
-    probe("parse_ok");
-    if (ref.ok && (chk & CHK_PARSEVAL) && !model::equal_struct(s.m, ref.v))
-      violate("model", site("value"), "parsed document differs from the reference parse: got " + model::printable(model::canon(s.m), 200) + " want " + model::printable(model::canon(ref.v), 200));
-    ob += model::canon(s.m);
-  }
-
-  template <class N> void check_serialized(const std::string& bytes, N& n, JVal& m) {
-    model::ParseOut ref = model::parse(bytes);
-    if (!ref.ok) violate("model", site("invalid_json"), "serialised text rejected by the reference recogniser at " + std::to_string(ref.err_pos) + ": " + model::printable(bytes, 300));
-    if (!model::equal_struct(ref.v, m)) violate("model", site("roundtrip_ref"), "reference parse of the serialised text differs from the document: text " + model::printable(bytes, 300) + " model " + model::printable(model::canon(m), 300));
-    // parse back with the library itself (freeing allocator scratch document), compare with ==
-    DSim scratch;
-    CBuf tb(bytes);
-    scratch.Parse(tb.data, bytes.size());
-    tb.release();
-    if (scratch.HasParseError()) violate("model", site("roundtrip_parse"), "library rejected its own serialised text: " + model::printable(bytes, 300));
-    if (!m.has_dup_keys_deep()) {
-      const N& cn = n;
-      if (!(cn == static_cast<const NSim&>(scratch)) || !(static_cast<const NSim&>(scratch) == cn)) violate("model", site("roundtrip_equal"), "Parse(Serialize(doc)) != doc: " + model::printable(bytes, 300));
-    }
-    std::string again = scratch.Dump();
-    if (again != bytes) violate("model", site("idempotent"), "re-serialising the parsed-back document gives different bytes: " + model::printable(bytes, 200) + " vs " + model::printable(again, 200));
-    probe("serialize_roundtrip");
-  }
-};
+using namespace simdom;
 
 // ------------------------------------------------------------------ execution wrapper
 static void exec_dom(const Plan& p, Outcome& out) {
@@ -930,6 +157,7 @@ static void common_knobs(Plan& p, Gen& g, uint64_t rs, uint32_t chk) {
   p.knobs["chk"] = chk;
   p.knobs["str_mode"] = (int64_t)g.r.below(3);
   p.knobs["own_alloc"] = (int64_t)g.r.below(64);
+  p.knobs["share_pool"] = (int64_t)g.r.chance(1, 3);
 }
 
 // ---- C12: mutation API vs ordered containers (no Parse anywhere)
@@ -1018,7 +246,12 @@ static void gen_c06(uint64_t seed, uint64_t run, const std::string& tier, Plan& 
   for (size_t i = 0; i < n; i++) {
     unsigned m = (unsigned)g.r.below(20);
     if (m < 3) { Op& op = g.add("WbNew"); static const int64_t caps[] = {-1, 0, 1, 2, 7, 8, 9, 15, 16, 17, 31, 63, 64, 65, 255, 256, 257, 1000}; op.a.push_back((int64_t)g.r.below(NWB)); op.a.push_back(caps[g.r.below(sizeof(caps) / sizeof(caps[0]))]); }
-    else if (m < 4) { Op& op = g.add("WbMove"); op.a.push_back((int64_t)g.r.below(NWB)); op.a.push_back((int64_t)g.r.below(NWB)); }
+    else if (m < 4) {
+      unsigned w = (unsigned)g.r.below(3);
+      if (w == 0) { Op& op = g.add("WbMove"); op.a.push_back((int64_t)g.r.below(NWB)); op.a.push_back((int64_t)g.r.below(NWB)); }
+      else if (w == 1) { Op& op = g.add("WbReserve"); op.a.push_back((int64_t)g.r.below(NWB)); op.a.push_back((int64_t)g.r.below(3000)); }
+      else { Op& op = g.add("WbUse"); op.a = {(int64_t)g.r.below(NWB), (int64_t)g.r.below(200), (int64_t)g.r.below(2), (int64_t)g.r.below(2)}; }
+    }
     else if (m < 7) { Op& op = g.add("Build"); op.a.push_back(g.slot()); op.s.push_back(g.r.chance(2, 3) ? "" : g.path()); op.a.push_back((int64_t)g.r.below(3)); op.s.push_back(g.val((int)g.r.range(0, 4))); }
     else if (m < 9) { Op& op = g.add("Parse"); op.a.push_back(g.slot()); op.s.push_back(""); model::GenOpts go2 = g.go; go2.nonfinite = false; go2.max_depth = (int)g.r.range(0, 4); std::string t; model::WriteOpts wo; wo.ws_rng = &g.r; wo.ws_max = 4; wo.escape_more = g.r.chance(1, 2); model::write(model::gen_value(g.r, go2), t, wo); op.s.push_back(t); }
     else if (m < 12) g.mutation_op();
